@@ -130,7 +130,9 @@ def oracle(meta, kw, r):
     if ss is not None and kw.get("t_eval") is None:
         if ss[0] > 0:
             out.append(("sample-not-covered", "sol(t_i) failed for %d stored sample time(s)" % ss[0]))
-        elif not (ss[1] <= 1e-9 * scale):
+        elif all(v == v and abs(v) != math.inf for yi in y for v in yi) and not (ss[1] <= 1e-9 * scale):
+            # (only when every stored sample is finite: RK4, which has no error control, may overflow to inf / NaN with a
+            # far too long step, and |NaN - NaN| is NaN although sol reproduces the stored NaN)
             out.append(("sample-mismatch", "max_i |sol(t_i) - y_i| = %.3g over all stored samples" % ss[1]))
     for tj in meta.get("joints", []):
         a, b = vals.get(gridgen.nextafter(tj, -1)), vals.get(gridgen.nextafter(tj, 1))
